@@ -351,6 +351,12 @@ def _check_s3cas(sim, ev, V, paused):
     for wv in writes:
         ids.setdefault(wv["actor"].split("/")[0], wv["body"])
     owner_of = {v: k for k, v in ids.items()}
+    if len(owner_of) < len(ids):
+        # two contenders write the SAME owner token into the lock object: nobody - not the contenders, not this oracle -
+        # can tell whose lock it is (a release or an ownership check of one passes for the other's lock)
+        dup = sorted(a for a in ids if list(ids.values()).count(ids[a]) > 1)
+        V.append({"clause": "K.owner_token_shared",
+                  "msg": f"contenders {dup} write the same owner token {ids[dup[0]]!r} into the lock object"})
     # (a) acquire returns only after a conditional PUT that made the content its id
     for e in ev:
         if e.get("ok"):
